@@ -78,10 +78,10 @@ func ruleCompressor(r *Report) {
 				a := s.Call().Common().Args[0]
 				po := paramOrigin(a)
 				sl, isSl := a.(*ssa.Slice)
-				if po != nil && po.Name() == "destinationBuffer" {
+				if po != nil && refName(po) == "destinationBuffer" {
 					r.Bad(rule, ef0uniq(rule+"/"+FuncKey(fn)+"/dst-emptied"), s.Pos(), "the caller's (pooled) destination buffer is used without being emptied: output is appended to stale content")
 				} else if isSl {
-					if pp := paramOrigin(sl.X); pp != nil && pp.Name() == "destinationBuffer" {
+					if pp := paramOrigin(sl.X); pp != nil && refName(pp) == "destinationBuffer" {
 						hi, okH := constInt(sl.High)
 						if sl.Low == nil && okH && hi == 0 {
 							r.OK(rule, ef0uniq(rule+"/"+FuncKey(fn)+"/dst-emptied"), s.Pos(), "destinationBuffer[:0]")
